@@ -202,8 +202,8 @@ class TaskingEngine(metaclass=ABCMeta):
         """
         for miss in missed_observations:
             if miss:
-                self._missed_observations.extend(missed_observations)
-                self._saved_missed_observations.extend(missed_observations)
+                self._missed_observations.append(miss)
+                self._saved_missed_observations.append(miss)
 
     def updateFromAsyncTaskExecution(self, sensor_info_list: list) -> None:
         """Save Changes to sensor as a result of tasking.
